@@ -427,6 +427,22 @@ func (o *cycleObs) AfterEvent(i int, e sim.Event, w *sim.World, m *sim.Model) er
 		return nil
 	}
 	o.n++
+	// The work_dir belongs to the running instance until ITS Cleanup. A further validator configured with the same
+	// work_dir (config reload with an unchanged crl_config) is refused or not - but a refused attempt, which the host
+	// cleans up like any module whose Provision failed, must not change the answer for the next attempt.
+	if o.n%2 == 1 {
+		var refused [2]bool
+		for k := range refused {
+			other, err := world.NewChecker(w.Opts())
+			refused[k] = err != nil
+			if err == nil {
+				other.Cleanup()
+			}
+		}
+		if refused[0] != refused[1] {
+			return fmt.Errorf("while a validator is running on the work_dir a second validator with the same work_dir was refused=%v, a third one (after the host cleaned up the second) refused=%v: the Cleanup of a validator that never obtained the work_dir released the registration of the running one", refused[0], refused[1])
+		}
+	}
 	// a restart is Cleanup + Provision: the new instance is running now; what the OLD one held must be gone.
 	// The running instance legitimately owns goroutines and handles, so compare against the level right after
 	// the first provisioning: it must not grow with the number of cycles.
@@ -468,7 +484,7 @@ var cycleSpec = ev.Spec[Cycle]{
 	ID:   "C20",
 	Gen:  genCycle,
 	Run:  runCycle,
-	Rule: "lifecycle: 2..20 provision / handshakes (/ refresh) / cleanup cycles on one work_dir (spelled canonically, with trailing slash or with a /./ component), disk or memory, 1..3 CDP sets (one possibly failing), optionally a configured crl_url. Every re-provisioning must succeed (work_dir registration and LevelDB LOCK released), verdicts follow the model, the number of plugin/leveldb goroutines after n cycles does not exceed the number after the first, and after the final Cleanup no goroutine of the plugin or of leveldb is alive and no file descriptor of the process points into work_dir. Every case is non-trivial.",
+	Rule: "lifecycle: 2..20 provision / handshakes (/ refresh) / cleanup cycles on one work_dir (spelled canonically, with trailing slash or with a /./ component), disk or memory, 1..3 CDP sets (one possibly failing), optionally a configured crl_url. Every re-provisioning must succeed (work_dir registration and LevelDB LOCK released); while an instance runs, two further provisioning attempts on its work_dir (each cleaned up by the host) get the same answer, verdicts follow the model, the number of plugin/leveldb goroutines after n cycles does not exceed the number after the first, and after the final Cleanup no goroutine of the plugin or of leveldb is alive and no file descriptor of the process points into work_dir. Every case is non-trivial.",
 }
 
 func TestCycles(t *testing.T)      { ev.Check(t, cycleSpec) }
